@@ -29,6 +29,9 @@ class C15(Check):
                      note='original netname_absent logic (host authn satisfied by a non-matching DNS name)'),
             ModelRun('TcpclPolicy', CFG % '{"ignore_require_node"}', 'policy-dev2', expect='violation', workers=8,
                      note='ignoring require_node_authn must be caught'),
+            ModelRun('TcpclPolicy', CFG % '{"flags_compared_whole"}', 'policy-dev3', expect='violation', workers=8,
+                     note='comparing the whole contact-header flags octet with CAN_TLS (reserved bits set by the '
+                          'peer) must be caught'),
         ]
 
     def rule(self):
